@@ -142,6 +142,7 @@ func (c *Ctx) errorKindOnEdge(f *ssa.Function, b *ssa.BasicBlock, kind string) (
 }
 
 func runC03(c *Ctx) {
+	c.tooLargeIsDecidedByTheLimits("W12")
 	c.depthCountsEveryElement()
 	c.rule("W1", "per-file bound precedes the write (declared size vs GetMaxFileSize, 'too large' on the failing side, bytes copied = declared size); archive size checked before zip.NewReader", 2)
 	c.rule("W5", "an archive whose headers contradict its data is refused: after the bounded copy of an entry its reader is read on (the zip reader compares size and checksum with the header only at the end of the entry), and an error or a surplus byte is an error exit, on every path to a successful return", 1)
